@@ -15,6 +15,8 @@ pub mod c09;
 pub mod c10;
 pub mod c11;
 pub mod c12;
+pub mod c13;
+pub mod chains;
 pub mod c15;
 pub mod c16;
 pub mod c18;
@@ -44,6 +46,8 @@ pub const PROPS: &[Prop] = &[
     Prop { id: "C10", run: c10::run, replay: c10::replay, leg: None },
     Prop { id: "C11", run: c11::run, replay: c11::replay, leg: None },
     Prop { id: "C12", run: c12::run, replay: c12::replay, leg: None },
+    Prop { id: "C13", run: c13::run13, replay: c13::replay13, leg: None },
+    Prop { id: "C14", run: c13::run14, replay: c13::replay14, leg: None },
     Prop { id: "C15", run: c15::run, replay: c15::replay, leg: None },
     Prop { id: "C16", run: c16::run, replay: c16::replay, leg: None },
     Prop { id: "C18", run: c18::run, replay: c18::replay, leg: None },
